@@ -430,17 +430,21 @@ impl<'a> From<Piece<'a>> for Chunk {
 
                     let timezone = match formatter.args.get(1) {
                         Some(arg) => {
-                            if let Some(arg) = arg.first() {
-                                match *arg {
-                                    Piece::Text("utc") => Timezone::Utc,
-                                    Piece::Text("local") => Timezone::Local,
-                                    Piece::Text(z) => {
-                                        return Chunk::Error(format!("invalid timezone `{}`", z));
-                                    }
+                            // the whole argument is the zone name
+                            let mut zone = String::new();
+                            for piece in arg {
+                                match *piece {
+                                    Piece::Text(text) => zone.push_str(text),
                                     _ => return Chunk::Error("invalid timezone".to_owned()),
                                 }
-                            } else {
-                                return Chunk::Error("invalid timezone".to_owned());
+                            }
+                            match zone.as_str() {
+                                "utc" => Timezone::Utc,
+                                "local" => Timezone::Local,
+                                "" => return Chunk::Error("invalid timezone".to_owned()),
+                                z => {
+                                    return Chunk::Error(format!("invalid timezone `{}`", z));
+                                }
                             }
                         }
                         None => Timezone::Local,
